@@ -98,7 +98,8 @@ Definition k_range := b "Range".
 
 (* framing of the body as the client sent it: 0 none, 1 Content-Length, 2 chunked *)
 Record xin := {
-  xi_mode : N;            (* 0 = direct to the origin, 1 = through an upstream HTTP proxy *)
+  xi_mode : N;            (* 0 = direct to the origin, 1 = through an upstream HTTP proxy,
+                             2 = inside a MITM'd CONNECT tunnel (TLS to the client and to the origin) *)
   xi_tag : str;           (* this instance's Via tag *)
   xi_client_ip : str;
   xi_method : str; xi_target : str; xi_maj : N; xi_min : N;
@@ -125,9 +126,12 @@ Definition read_request (x : xin) : option (mreq * target) :=
                 end in
       (* readTransfer: Transfer-Encoding (and, when chunked, Content-Length) and Trailer leave the header map *)
       let h3 := raw_del k_trailer (raw_del k_te (if xi_framing x =? 2 then raw_del k_cl h2 else h2)) in
-      let urlstr := (if is_empty (t_scheme t) then b "http" else t_scheme t) ++ b "://" ++ host
-                    ++ ep ++ query_suffix t in
-      Some (mkq (xi_method x) (t_scheme t) host urlstr (xi_client_ip x ++ b ":0") false (xi_maj x) (xi_min x)
+      let tls := xi_mode x =? 2 in
+      let r0 := mkq (xi_method x) (t_scheme t) host [] (xi_client_ip x ++ b ":0") tls (xi_maj x) (xi_min x)
+                    (wants_close (xi_maj x) (xi_min x) h0) h3 in
+      (* req.URL.String() is taken by the forwarded modifier, i.e. after fixRequestScheme chose the scheme *)
+      let urlstr := q_scheme (fix_request_scheme proxy_allow_http r0) ++ b "://" ++ host ++ ep ++ query_suffix t in
+      Some (mkq (xi_method x) (t_scheme t) host urlstr (xi_client_ip x ++ b ":0") tls (xi_maj x) (xi_min x)
                 (wants_close (xi_maj x) (xi_min x) h0) h3, t)
   end.
 
@@ -210,6 +214,7 @@ Definition sent_host (x : xin) : str :=
   if is_empty (t_authority t) then h_get k_host (fields_to_hmap (xi_fields x)) else t_authority t.
 
 Definition upgrade_requested (h : hmap) : str := upgrade_type h.
+Definition sent_scheme (x : xin) : str := if xi_mode x =? 2 then b "https" else b "http".
 
 (* name by name: what the next hop must see *)
 Definition xkey_ok (x : xin) (hin hout : hmap) (k : str) : bool :=
@@ -221,15 +226,15 @@ Definition xkey_ok (x : xin) (hin hout : hmap) (k : str) : bool :=
     list_str_eqb (chain (raw_values via_key hout)) (chain (raw_values via_key h0) ++ [elem (xi_tag x) (xi_maj x) (xi_min x)])
   else if str_eqb k k_xff then
     list_str_eqb (chain (raw_values k_xff hout)) (chain (raw_values k_xff h0) ++ [xi_client_ip x])
-  else if str_eqb k k_xfp then fill_ok (b "http") (raw_get k h0) out
+  else if str_eqb k k_xfp then fill_ok (sent_scheme x) (raw_get k h0) out
   else if str_eqb k k_xfh then fill_ok (sent_host x) (raw_get k h0) out
   else if str_eqb k k_xfu then
     match raw_get k h0 with
     | Some vs => if some_nonempty vs then opt_vals_eqb out (Some vs) else true
     | None => match out with
               | Some [v] => (* the URL the client asked for *)
-                  str_eqb v (b "http://" ++ sent_host x ++ sent_path_query x) ||
-                  str_eqb v (b "http://" ++ sent_host x ++ sent_raw_path_query x)
+                  str_eqb v (sent_scheme x ++ b "://" ++ sent_host x ++ sent_path_query x) ||
+                  str_eqb v (sent_scheme x ++ b "://" ++ sent_host x ++ sent_raw_path_query x)
               | _ => false
               end
     end
